@@ -4,6 +4,12 @@ import json, os
 here = os.path.dirname(os.path.dirname(os.path.abspath(__file__)))
 TECH = "deterministic simulation with fault injection"
 claimed = {
+ "C04": ("fault_enumeration", "generated indexes are written with the real encoder, checked against an independent caibx parser, read back through a fragmenting stream, the local index store and the HTTP index client/server; then every strict prefix (torn write / cut connection), swapped offsets, an over-long chunk and a flipped digest flag must be rejected; casync-made fixtures must re-encode byte-identically",
+         "exhaustive over prefixes of each generated file (stream mode; <= 600 evenly spaced prefixes per file through stores); the round-trip half is input coverage, not simulation (stated partial scope); console and S3 index stores not exercised",
+         TECH + " (stream/stored-index fault enumeration, independent parser as oracle)"),
+ "C19": ("fault_enumeration", "valid indexes, catar fixtures and protocol message streams are fed to the real decoders through a reader that truncates at every byte, sets every element size field to each critical value (0, <16, 16, 17, ..., size+-1, 2^20, 2^50, 2^63, 2^64-1), replaces type fields, flips bits, fragments reads and fails; oracle: no panic, allocation <= 8*len+128 KiB, reader errors surface",
+         "only faulted valid streams are explored, not all byte strings (stated partial scope); sizes between 2^31 and 2^47 are not injected; catar inputs are the repository fixtures",
+         TECH + " (stream fault enumeration with allocation accounting)"),
  "C14": ("exploration", "seeded search over the compression/verification matrix, GET/HEAD/PUT for chunks and indexes (incl. chained index servers), scripted server response sequences (reset, 5xx, short body, response past the time-out, then served/404/4xx), error-retry values and back-off bases for the real HTTP client and handlers over an in-process transport in fake time, and casync-protocol sessions over a pipe with fragmentation and mid-message cuts; oracle: data byte-identical, missing vs failed reported truthfully, transient runs below the budget invisible, attempt count and simulated back-off time exactly as documented",
          "sampling; TLS/auth/real sockets not exercised; mismatched client/server compression settings not generated",
          TECH + " (scripted transport faults in fake time, real client and server code)"),
